@@ -194,8 +194,17 @@ func (r *ingressController) buildCanaryIngress(stableIngress *netv1.Ingress) *ne
 				HTTP: &netv1.HTTPIngressRuleValue{},
 			},
 		}
+		// a rule without an http section (host only) sends its traffic to the default backend,
+		// there is nothing to copy
+		if stableRule.HTTP == nil {
+			continue
+		}
 		// Update all backends pointing to the stableService to point to the canaryService now
 		for ip := 0; ip < len(stableRule.HTTP.Paths); ip++ {
+			// a path may have a resource backend instead of a service backend
+			if stableRule.HTTP.Paths[ip].Backend.Service == nil {
+				continue
+			}
 			if stableRule.HTTP.Paths[ip].Backend.Service.Name == r.conf.StableService {
 				hasStableServiceBackendRule = true
 				if stableRule.Host != "" {
@@ -204,7 +213,7 @@ func (r *ingressController) buildCanaryIngress(stableIngress *netv1.Ingress) *ne
 				canaryPath := netv1.HTTPIngressPath{
 					Path:     stableRule.HTTP.Paths[ip].Path,
 					PathType: stableRule.HTTP.Paths[ip].PathType,
-					Backend:  stableRule.HTTP.Paths[ip].Backend,
+					Backend:  *stableRule.HTTP.Paths[ip].Backend.DeepCopy(),
 				}
 				canaryPath.Backend.Service.Name = r.conf.CanaryService
 				canaryRule.HTTP.Paths = append(canaryRule.HTTP.Paths, canaryPath)
